@@ -78,6 +78,15 @@ func randomOp(r *gen.Rng, w, h int) string {
 		}
 		return p
 	}
+	extra2 := func(p string) string {
+		if !r.Chance(1, 5) {
+			return p
+		}
+		for n := r.Range(1, 3); n > 0; n-- {
+			p += ";" + fmt.Sprint(gen.Pick(r, []int{0, 1, 2, 7, 65535}))
+		}
+		return p
+	}
 	switch k := r.Intn(100); {
 	case k < 38:
 		return emuh.Pr(gen.Pick(r, []string{"a", "b", "c", "x", "y", "z", " ", "é", "世", "界", "🔥", "a", "b"}))
@@ -90,7 +99,8 @@ func randomOp(r *gen.Rng, w, h int) string {
 	case k < 58:
 		return emuh.Csi(gen.Pick(r, []string{"?h", "?l"}), "1049")
 	case k < 64:
-		return emuh.Csi(gen.Pick(r, []string{"H", "f"}), gen.Pick(r, []string{"", par(h), par(h) + ";" + par(w), ";" + par(w)}))
+		// round 3: every fifth two-parameter CUP/HVP carries further parameters (ignored by a VT / xterm)
+		return emuh.Csi(gen.Pick(r, []string{"H", "f"}), gen.Pick(r, []string{"", par(h), extra2(par(h) + ";" + par(w)), extra2(";" + par(w))}))
 	case k < 68:
 		return emuh.Csi(gen.Pick(r, []string{"G", "`"}), extra(par(w)))
 	case k < 70:
@@ -106,7 +116,7 @@ func randomOp(r *gen.Rng, w, h int) string {
 	case k < 94:
 		return emuh.Csi(gen.Pick(r, []string{"L", "M", "S", "T"}), extra(par(h)))
 	case k < 96:
-		return emuh.Csi("r", gen.Pick(r, []string{"", par(h) + ";" + par(h), fmt.Sprintf("%d;%d", r.Range(1, h), r.Range(1, h+2)), par(h)}))
+		return emuh.Csi("r", gen.Pick(r, []string{"", extra2(par(h) + ";" + par(h)), extra2(fmt.Sprintf("%d;%d", r.Range(1, h), r.Range(1, h+2))), par(h)}))
 	default:
 		return emuh.Csi("m", gen.Pick(r, sgrVocab))
 	}
